@@ -12,7 +12,10 @@ INVS = ["C10_OneCloseTag", "C10_NothingAfterClose", "C10_ClosedIffTag", "C10_Sen
 
 def run(ctx, focus="close"):
     quick = ctx.tier == "quick"
-    mc = ctx.model_check("MCOutput", oc.MC_CFG % {"procs": '{"a", "s"}' if quick else '{"a", "b", "s"}'}, INVS, timeout=2400)
+    # quick: two processes over a reduced program / script set; thorough: the full sets (two processes:
+    # ~8 M states; three processes do not finish in minutes and are left to the schedule exploration)
+    mc = ctx.model_check("MCOutput", oc.MC_CFG % ({"procs": '{"a", "s"}', "programs": "ProgramsQuick", "scripts": "PeerScriptsQuick"} if quick
+                                                 else {"procs": '{"a", "s"}', "programs": "ProgramsMC", "scripts": "PeerScriptsMC"}), INVS, timeout=2400)
     if ctx.replay:
         case = json.load(open(ctx.replay))["case"]
         scen = [case["scenario"]]
